@@ -25,6 +25,10 @@ inductive Res (α : Type) where
   | .ill => .ill
   | .unsup => .unsup
 
+/-- a computed type is answered only when well-formed (it always is: the guard never fires on the correspondence
+    stream; it spares the soundness proof a separate induction over expressions) -/
+def okW (t : Ty) : Res Ty := if wf t then .ok t else .unsup
+
 abbrev TEnv := List (String × Ty)
 
 def TEnv.lookup (x : String) : TEnv → Option Ty
@@ -46,16 +50,16 @@ def binTy (op : BinOp) (l r : Ty) : Res Ty :=
   match op with
   | .add =>
     match l, r with
-    | .arr le, .arr re => .ok (.arr (concat le re))
+    | .arr le, .arr re => okW (.arr (concat le re))
     | _, _ =>
-      if sub (pairTy l r) accAddScalar then .ok l
+      if sub (pairTy l r) accAddScalar then okW l
       else if sub (pairTy l r) accAdd then .unsup      -- unions of array types: not in the fragment
       else .ill
-  | .sub | .mul | .div | .pow => if sub (pairTy l r) accNum then .ok l else .ill
+  | .sub | .mul | .div | .pow => if sub (pairTy l r) accNum then okW l else .ill
   | .lt | .le | .gt | .ge => if sub (pairTy l r) accNum then .ok .bool else .ill
   | .mod | .shl | .shr => if sub (pairTy l r) accInt then .ok .int else .ill
   | .eq | .ne => .ok .bool
-  | .band | .bor | .bxor => if sub (pairTy l r) accBit then .ok l else .ill
+  | .band | .bor | .bxor => if sub (pairTy l r) accBit then okW l else .ill
   | .filter | .map | .partition => .unsup
 
 mutual
@@ -66,12 +70,12 @@ def tyOf : TEnv → Expr → Res Ty
   | _, .litStr _ => .ok .str
   | _, .litUnit => .ok .void
   | g, .var x => match g.lookup x with
-    | some t => .ok t
+    | some t => okW t
     | none => .ill
-  | g, .array es => (tyOfList g es).bind fun ts => .ok (.arr (concatL ts))
-  | g, .tuple es => if es.length < 2 then .unsup else (tyOfList g es).bind fun ts => .ok (.tup ts)
-  | g, .pre .not e => (tyOf g e).bind fun t => if sub t accNot then .ok t else .ill
-  | g, .pre .neg e => (tyOf g e).bind fun t => if sub t accNeg then .ok t else .ill
+  | g, .array es => (tyOfList g es).bind fun ts => okW (.arr (concatL ts))
+  | g, .tuple es => if es.length < 2 then .unsup else (tyOfList g es).bind fun ts => okW (.tup ts)
+  | g, .pre .not e => (tyOf g e).bind fun t => if sub t accNot then okW t else .ill
+  | g, .pre .neg e => (tyOf g e).bind fun t => if sub t accNeg then okW t else .ill
   | g, .and a b => (tyOf g a).bind fun ta => (tyOf g b).bind fun tb =>
       if eqv ta .bool && eqv tb .bool then .ok .bool else .ill
   | g, .or a b => (tyOf g a).bind fun ta => (tyOf g b).bind fun tb =>
@@ -80,7 +84,7 @@ def tyOf : TEnv → Expr → Res Ty
   | g, .at a i => (tyOf g a).bind fun ta => (tyOf g i).bind fun ti =>
       if !eqv ti .int then .ill else
       match ta with
-      | .arr e => .ok e
+      | .arr e => okW e
       | .str => .ok .str
       | .multi _ => .unsup
       | .never => .unsup
@@ -88,7 +92,7 @@ def tyOf : TEnv → Expr → Res Ty
   | g, .tacc e n => (tyOf g e).bind fun t =>
       match t with
       | .tup ts => match ts[n]? with
-        | some x => .ok x
+        | some x => okW x
         | none => .ill
       | .multi _ => .unsup
       | .never => .unsup
@@ -97,9 +101,9 @@ def tyOf : TEnv → Expr → Res Ty
       if !eqv tc .bool then .ill else
       (tyOf g t).bind fun tt =>
       match e with
-      | some e => (tyOf g e).bind fun te => .ok (concat tt te)
-      | none => .ok (concat tt .void)
-  | g, .block body => (tyOfSeq g body).bind fun (t, _) => .ok t
+      | some e => (tyOf g e).bind fun te => okW (concat tt te)
+      | none => okW (concat tt .void)
+  | g, .block body => (tyOfSeq g body).bind fun (t, _) => okW t
   | _, _ => .unsup
 def tyOfList : TEnv → List Expr → Res (List Ty)
   | _, [] => .ok []
